@@ -25,10 +25,11 @@ Definition opt_list (o : option addr) : list addr := match o with Some a => [a] 
 (* ---- which optional working-set addresses the WorkingSet case of WalkAddrs reports.
    Read off the regenerated accessor list of that case block, so that the model follows the
    source when the walker is extended. ---- *)
-Record wflags := { f_rebase_pre : bool; f_rebase_onto : bool; f_merge_prehead : bool; f_merge_pending : bool }.
+Record wflags := { f_rebase_pre : bool; f_rebase_onto : bool; f_merge_prehead : bool; f_merge_pending : bool;
+                   f_art_base : bool }.   (* walkMergeArtifactAddresses reports the root-ish stored in the values' JSON *)
 
 Definition complete (fl : wflags) : bool :=
-  f_rebase_pre fl && f_rebase_onto fl && f_merge_prehead fl && f_merge_pending fl.
+  f_rebase_pre fl && f_rebase_onto fl && f_merge_prehead fl && f_merge_pending fl && f_art_base fl.
 
 Definition case_accessors (fid : string) : list string :=
   match find (fun p => String.eqb (fst p) fid) walker_cases with Some p => snd p | None => [] end.
@@ -41,7 +42,8 @@ Definition source_flags : wflags :=
      f_rebase_onto := mentions "WorkingSetFileID" "TryRebaseState"
                       && mentions "WorkingSetFileID" "OntoCommitAddrBytes";
      f_merge_prehead := mentions "WorkingSetFileID" "PreMergeHeadCommitAddrBytes";
-     f_merge_pending := mentions "WorkingSetFileID" "PendingCommitHashes" |}.
+     f_merge_pending := mentions "WorkingSetFileID" "PendingCommitHashes";
+     f_art_base := existsb (String.eqb "ValueItemsBytes") artifact_walker |}.
 
 (* ---- messages ---- *)
 Record merge_state := { ms_pre_working : addr; ms_from_commit : addr;
@@ -55,6 +57,7 @@ Inductive node :=
 | NProlly (address_array : list addr) (value_addrs : list addr)   (* value_address_offsets into value_items *)
 | NAddressMap (address_array : list addr)
 | NArtifacts (address_array : list addr) (key_addrs : list addr)  (* key_address_offsets into key_items *)
+             (meta_addrs : list addr)   (* conflict artifacts: ConflictMetadata.BaseRootIsh, JSON {"bc": hash} in value_items *)
 | NBlob (address_array : list addr)
 | NClosure (address_array : list addr) (level : N) (key_addrs : list addr)  (* keys are [height; commit address] *)
 | NVector (address_array : list addr).
@@ -77,18 +80,18 @@ Inductive msg :=
 (* message.WalkAddresses: walkProllyMapAddresses, walkAddressMapAddresses, walkMergeArtifactAddresses,
    walkBlobAddresses, walkCommitClosureAddresses, walkVectorIndexAddresses.
    (walkProllyMapAddresses asserts that not both arrays are present; the serializer never writes both.) *)
-Definition walk_node (n : node) : list addr :=
+Definition walk_node (fl : wflags) (n : node) : list addr :=
   match n with
   | NProlly aa va => aa ++ va
   | NAddressMap aa => aa
-  | NArtifacts aa ka => aa ++ ka
+  | NArtifacts aa ka meta => aa ++ ka ++ (if f_art_base fl then meta else [])
   | NBlob aa => aa
   | NClosure aa lvl ka => aa ++ (if lvl =? 0 then ka else [])
   | NVector aa => aa
   end.
 
-Definition walk_opt_node (o : option node) : list addr :=
-  match o with Some n => walk_node n | None => [] end.
+Definition walk_opt_node (fl : wflags) (o : option node) : list addr :=
+  match o with Some n => walk_node fl n | None => [] end.
 
 Definition walk_merge_state (fl : wflags) (s : merge_state) : list addr :=
   [ms_pre_working s; ms_from_commit s]
@@ -103,8 +106,8 @@ Definition walk_rebase_state (fl : wflags) (r : rebase_state) : list addr :=
    dereference nil; every writer (durable.serialTableFields.write) stores it, so it is mandatory here. *)
 Definition walk_addrs (fl : wflags) (m : msg) : list addr :=
   match m with
-  | MStoreRoot am => walk_opt_node am
-  | MStashList am => walk_opt_node am
+  | MStoreRoot am => walk_opt_node fl am
+  | MStashList am => walk_opt_node fl am
   | MStatistic r => [r]
   | MStash sr hc => [sr; hc]
   | MTag c => [c]
@@ -112,26 +115,27 @@ Definition walk_addrs (fl : wflags) (m : msg) : list addr :=
       [w] ++ opt_list st
       ++ match ms with Some s => walk_merge_state fl s | None => [] end
       ++ match rs with Some r => walk_rebase_state fl r | None => [] end
-  | MRootValue t fk => walk_node t ++ nonempty fk
+  | MRootValue t fk => walk_node fl t ++ nonempty fk
   | MTable sch cf viol art sec prim =>
       [sch] ++ nonempty (cf_data cf) ++ nonempty (cf_ours cf) ++ nonempty (cf_theirs cf) ++ nonempty (cf_anc cf)
-      ++ nonempty viol ++ nonempty art ++ walk_node sec ++ walk_node prim
+      ++ nonempty viol ++ nonempty art ++ walk_node fl sec ++ walk_node fl prim
   | MCommit ps r cl => ps ++ [r] ++ nonempty cl
   | MLeaf _ => []
-  | MNode n => walk_node n
+  | MNode n => walk_node fl n
   end.
 
 (* ---- what loading the object may dereference ---- *)
 
 (* a reader of a node follows child pointers (internal levels), address-map values, out-of-band value
    addresses of leaf tuples, the root-ish addresses in artifact keys and the commit addresses in
-   closure leaf keys.  Vector index keys are addresses of values that the primary index also references
+   closure leaf keys, and — when reading dolt_conflicts_<t> — the base root-ish recorded in the JSON value of
+   every conflict artifact (conflicts_tables_prolly.go loadTableMaps, doltdb/table.go).  Vector index keys are addresses of values that the primary index also references
    (documented in vectorindexnode.fbs); they are not counted as loads of the vector node. *)
 Definition node_loads (n : node) : list addr :=
   match n with
   | NProlly aa va => aa ++ va
   | NAddressMap aa => aa
-  | NArtifacts aa ka => aa ++ ka
+  | NArtifacts aa ka meta => aa ++ ka ++ meta
   | NBlob aa => aa
   | NClosure aa lvl ka => aa ++ (if lvl =? 0 then ka else [])
   | NVector aa => aa
@@ -167,9 +171,16 @@ Definition loads (m : msg) : list addr :=
   | MNode n => node_loads n
   end.
 
-(* the fields of the working set that today's walker may omit, as a function of the flags *)
+(* the addresses that an incomplete walker omits, as a function of the flags *)
+Definition node_omitted (fl : wflags) (n : node) : list addr :=
+  match n with NArtifacts _ _ meta => if f_art_base fl then [] else meta | _ => [] end.
+Definition opt_node_omitted (fl : wflags) (o : option node) : list addr :=
+  match o with Some n => node_omitted fl n | None => [] end.
+
 Definition omitted (fl : wflags) (m : msg) : list addr :=
   match m with
+  | MStoreRoot am => opt_node_omitted fl am
+  | MStashList am => opt_node_omitted fl am
   | MWorkingSet _ _ ms rs =>
       match ms with
       | Some s => (if f_merge_prehead fl then [] else opt_list (ms_pre_head s))
@@ -179,6 +190,9 @@ Definition omitted (fl : wflags) (m : msg) : list addr :=
          | Some r => (if f_rebase_pre fl then [] else [rs_pre_working r])
                      ++ (if f_rebase_onto fl then [] else [rs_onto r])
          | None => [] end
+  | MRootValue t _ => node_omitted fl t
+  | MTable _ _ _ _ sec prim => node_omitted fl sec ++ node_omitted fl prim
+  | MNode n => node_omitted fl n
   | _ => []
   end.
 
@@ -200,6 +214,8 @@ Definition node_of (m : msg) : option node := match m with MNode n => Some n | _
 (* (table, field, class, does a loader dereference it, which walker flag governs it, projection) *)
 Record hfield := { h_table : string; h_field : string; h_class : fclass;
                    h_flag : wflags -> bool; h_proj : msg -> list addr }.
+(* embedded messages are walked recursively; the message type lets any node kind be embedded, so their
+   completeness is tied to the node walkers' (f_art_base) *)
 Definition always (_ : wflags) := true.
 Definition nodata (_ : msg) : list addr := [].
 
@@ -228,10 +244,11 @@ Definition hand_fields : list hfield :=
     {| h_table := "ForeignKey"; h_field := "child_table_database_schema"; h_class := FData; h_flag := always; h_proj := nodata |};
     {| h_table := "ForeignKey"; h_field := "parent_table_database_schema"; h_class := FData; h_flag := always; h_proj := nodata |};
     {| h_table := "MergeArtifacts"; h_field := "key_items"; h_class := FInlineAddrs; h_flag := always;
-       h_proj := fun m => match m with MNode (NArtifacts _ ka) => ka | _ => [] end |};
-    {| h_table := "MergeArtifacts"; h_field := "value_items"; h_class := FData; h_flag := always; h_proj := nodata |};
+       h_proj := fun m => match m with MNode (NArtifacts _ ka _) => ka | _ => [] end |};
+    {| h_table := "MergeArtifacts"; h_field := "value_items"; h_class := FInlineAddrs; h_flag := f_art_base;
+       h_proj := fun m => match m with MNode (NArtifacts _ _ meta) => meta | _ => [] end |};
     {| h_table := "MergeArtifacts"; h_field := "address_array"; h_class := FAddrArray; h_flag := always;
-       h_proj := fun m => match m with MNode (NArtifacts aa _) => aa | _ => [] end |};
+       h_proj := fun m => match m with MNode (NArtifacts aa _ _) => aa | _ => [] end |};
     {| h_table := "MergeArtifacts"; h_field := "subtree_counts"; h_class := FData; h_flag := always; h_proj := nodata |};
     {| h_table := "ProllyTreeNode"; h_field := "key_items"; h_class := FData; h_flag := always; h_proj := nodata |};
     {| h_table := "ProllyTreeNode"; h_field := "value_items"; h_class := FInlineAddrs; h_flag := always;
@@ -239,7 +256,7 @@ Definition hand_fields : list hfield :=
     {| h_table := "ProllyTreeNode"; h_field := "address_array"; h_class := FAddrArray; h_flag := always;
        h_proj := fun m => match m with MNode (NProlly aa _) => aa | _ => [] end |};
     {| h_table := "ProllyTreeNode"; h_field := "subtree_counts"; h_class := FData; h_flag := always; h_proj := nodata |};
-    {| h_table := "RootValue"; h_field := "tables"; h_class := FEmbedded; h_flag := always;
+    {| h_table := "RootValue"; h_field := "tables"; h_class := FEmbedded; h_flag := f_art_base;
        h_proj := fun m => match m with MRootValue t _ => node_loads t | _ => [] end |};
     {| h_table := "RootValue"; h_field := "foreign_key_addr"; h_class := FAddr; h_flag := always;
        h_proj := fun m => match m with MRootValue _ fk => nonempty fk | _ => [] end |};
@@ -248,17 +265,17 @@ Definition hand_fields : list hfield :=
     {| h_table := "Stash"; h_field := "head_commit_addr"; h_class := FAddr; h_flag := always;
        h_proj := fun m => match m with MStash _ hc => [hc] | _ => [] end |};
     {| h_table := "Stash"; h_field := "tables_to_stage"; h_class := FData; h_flag := always; h_proj := nodata |};
-    {| h_table := "StashList"; h_field := "address_map"; h_class := FEmbedded; h_flag := always;
+    {| h_table := "StashList"; h_field := "address_map"; h_class := FEmbedded; h_flag := f_art_base;
        h_proj := fun m => match m with MStashList am => opt_node_loads am | _ => [] end |};
     {| h_table := "Statistic"; h_field := "root"; h_class := FAddr; h_flag := always;
        h_proj := fun m => match m with MStatistic r => [r] | _ => [] end |};
-    {| h_table := "StoreRoot"; h_field := "address_map"; h_class := FEmbedded; h_flag := always;
+    {| h_table := "StoreRoot"; h_field := "address_map"; h_class := FEmbedded; h_flag := f_art_base;
        h_proj := fun m => match m with MStoreRoot am => opt_node_loads am | _ => [] end |};
     {| h_table := "Table"; h_field := "schema"; h_class := FAddr; h_flag := always;
        h_proj := fun m => match m with MTable s _ _ _ _ _ => [s] | _ => [] end |};
-    {| h_table := "Table"; h_field := "primary_index"; h_class := FEmbedded; h_flag := always;
+    {| h_table := "Table"; h_field := "primary_index"; h_class := FEmbedded; h_flag := f_art_base;
        h_proj := fun m => match m with MTable _ _ _ _ _ p => node_loads p | _ => [] end |};
-    {| h_table := "Table"; h_field := "secondary_indexes"; h_class := FEmbedded; h_flag := always;
+    {| h_table := "Table"; h_field := "secondary_indexes"; h_class := FEmbedded; h_flag := f_art_base;
        h_proj := fun m => match m with MTable _ _ _ _ s _ => node_loads s | _ => [] end |};
     {| h_table := "Table"; h_field := "violations"; h_class := FAddr; h_flag := always;
        h_proj := fun m => match m with MTable _ _ v _ _ _ => nonempty v | _ => [] end |};
